@@ -258,6 +258,7 @@ def build(tier="quick", seed=0):
                masked(rm) == masked(rp), detail=f"{len(rm[-1])} vs {len(rp[-1])} masks", impl=modal, other=plain, use_static=False, cl="mask_structure")
     limits(b, res, hy)
     b.replayer("*::ensures:mask_structure*", _replay_masks)
+    b.replayer("*::ensures:medium_vs_general_obliquity*order2*", _replay_order2)
     b.replayer("*", lambda ob, r: replay(dict(obligation=ob.oid, meta=ob.meta)))
     b.assume("sin / cos of integer combinations of (colatitude, longitude, obliquity/2, n t, Omega t) are expanded by angle addition; s^2 + c^2 = 1 per base angle; colatitude in (0, pi) so sqrt(1 - cos^2) = sin")
     b.assume("the mask freq > MIN_SPIN_ORBITAL_DIFF is an opaque 0/1 factor per mode; modal sums and limits are taken with all masks on (distinct non-zero frequencies)")
@@ -279,6 +280,16 @@ def taylor01(x, kind):
         z = {e: 0}
         return x.xreplace(z), sp.diff(x, e).xreplace(z)
     raise ValueError(kind)
+
+
+def taylor2(x, kind):
+    """order-2 Taylor coefficient of x in the obliquity I.  'series': polynomial in OBL.  'trig': x(s, c) on s = sin(I/2), c = cos(I/2):
+    d2x/dI2 = x_ss s'^2 + 2 x_sc s'c' + x_cc c'^2 + x_s s'' + x_c c''  with s' = 1/2, c' = 0, s'' = 0, c'' = -1/4 at I = 0."""
+    x = sp.sympify(x)
+    if kind == "series":
+        return sp.diff(x, OBL, 2).xreplace({OBL: 0}) / 2
+    z = {sPS: 0, cPS: 1}
+    return (sp.diff(x, sPS, 2).xreplace(z) / 4 - sp.diff(x, cPS).xreplace(z) / 4) / 2
 
 
 def limits(b, res, hy):
@@ -324,6 +335,15 @@ def limits(b, res, hy):
                 p1.append((sp.Integer(0), sp.diff(d1, e).xreplace(z)))
                 p1.append((sp.Integer(0), sp.diff(d1, e, 2).xreplace(z)))
             add(f"medium_vs_general_obliquity[static={int(st)}]:order0", fkey, "medium- == general-obliquity variant at order I^0", p0, meta)
+            # second order in the obliquity (the statement's "to second order in obliquity"): the I^2 coefficients agree at the eccentricity orders the medium
+            # variant carries with its own I^2 terms (total degree <= 3: e^0 and e^1)
+            for k, (x, y) in enumerate(zip(total(rmed), total(rgen))):
+                d2 = taylor2(switches_on(x), "series") - taylor2(switches_on(y), "trig")
+                for eo in (0, 1):
+                    g_ = (d2 if eo == 0 else sp.diff(d2, e)).xreplace({e: 0})
+                    b.add(Obligation(oid=f"{fkey}::ensures:medium_vs_general_obliquity[static={int(st)}]:order2[{NAMES6[k]}][e^{eo}]", fn=fkey,
+                                     clause=f"I^2 coefficient of (medium - general obliquity) vanishes at order e^{eo} ({NAMES6[k]})", goal=sp.Eq(sp.Integer(0), g_, evaluate=False),
+                                     hyps=hy, rels=RELS, backends=("qqnf",), meta=dict(meta, component=k, order="I^2")))
             for k, (l_, r_) in enumerate(p1):
                 b.add(Obligation(oid=f"{fkey}::ensures:medium_vs_general_obliquity[static={int(st)}]:order1[{NAMES6[k // 3]}][e^{k % 3}]", fn=fkey,
                                  clause=f"I^1 coefficient of (medium - general obliquity) vanishes at order e^{k % 3} ({NAMES6[k // 3]})", goal=sp.Eq(l_, r_, evaluate=False),
@@ -468,3 +488,34 @@ def _replay_masks(ob, res):
     out = native.run(dict(code=_MASK_CODE), timeout=900)
     return dict(replayed=True, native=out, confirmed=bool(out.get("result")) or "exception" in out,
                 what="at the 1:1 and 3:2 spin-orbit resonances, with and without the static term: sum of modes vs non-modal variant, and obliquity variants at zero obliquity vs the no-obliquity variant")
+
+
+_ORDER2_CODE = r'''
+import numpy as np
+from TidalPy.tides.potential.nsr_med_eccen_gen_obliquity import tidal_potential as gen
+from TidalPy.tides.potential.nsr_med_eccen_med_obliquity import tidal_potential as med
+R_, lon, col, tm = 1.8e6, np.asarray([0.3]), np.asarray([1.0]), np.asarray([1.0e4])
+n = 2 * np.pi / (1.77 * 86400.); M, a = 1.9e27, 4.2e8
+out = []
+for e in (0.0, 0.05):
+    for I in (0.04, 0.02, 0.01):
+        g = gen(R_, lon, col, tm, n, 1.7 * n, e, I, M, a, use_static=False)
+        m = med(R_, lon, col, tm, n, 1.7 * n, e, I, M, a, use_static=False)
+        tot = lambda r: [sum(np.asarray(v[k]) for v in r[2].values()) for k in range(6)]
+        G, Mm = tot(g), tot(m)
+        scale = float(np.max(np.abs(G[0]))) + 1e-300
+        out.append([e, I, [float(np.max(np.abs(G[k] - Mm[k]))) / scale / I**2 for k in (0, 1, 3)]])
+result = out
+'''
+
+
+def _replay_order2(ob, res):
+    from tpv import native
+    out = native.run(dict(code=_ORDER2_CODE), timeout=900)
+    rec = dict(replayed=True, native=out, what="(general - medium obliquity variant) / (I^2 x scale) for U, U_theta, U_theta_theta at e = 0 and I = 0.04, 0.02, 0.01: stays O(1) iff the I^2 coefficients differ")
+    try:
+        rows = [r_ for r_ in out["result"] if r_[0] == 0.0 and r_[1] <= 0.02]
+        rec["confirmed"] = bool(rows) and all(max(r_[2]) > 1e-2 for r_ in rows)
+    except Exception:
+        rec["confirmed"] = "exception" in out
+    return rec
